@@ -444,7 +444,7 @@ PLANS = {
                 runs=[("c20", dict(quick=3000, thorough=100000))],
                 rule="(regex from pool/generator, haystack incl. multi-byte text, interleaving of next()/next_back() calls: all-forward, all-backward, 3 random); non-trivial = regex has a match; plus str::find/rfind/contains/matches/rmatches/split/rsplit compared with find_iter",
                 technique="Lean 4 proof of the Searcher/ReverseSearcher contract for the model of RegexSearcher (any interleaving tiles the haystack; Match steps = find_iter) + correspondence on nightly"),
-    "C06": dict(proofs=["Proofs.C06"], runs=[("engine", dict(quick=30000, thorough=1500000), ["--focus", "C06"]),
+    "C06": dict(proofs=["Proofs.C06", "Proofs.Certs"], runs=[("engine", dict(quick=30000, thorough=1500000), ["--focus", "C06"]),
                                              ("engine", dict(quick=30000, thorough=1500000), ["--focus", "C06"], {"profile": "checked"})],
                 rule=ENGINE_RULE,
                 technique="Lean 4 proof of a safety invariant of the executor models (no error site reachable, positions in range) + executor tie + range/boundary checks on the implementation"),
@@ -462,13 +462,13 @@ PLANS = {
                                              ("compiler", dict(quick=20000, thorough=600000))],
                 rule=ENGINE_RULE,
                 technique="Lean 4 proof (prefilter transparency for any admissible scan; byte-scan and lead-byte lemmas) + executor tie + predicate-vs-Arbitrary differential"),
-    "C02": dict(proofs=["Proofs.C02", "Proofs.C02Full", "Proofs.Keystone", "Proofs.Lemmas.KeystoneC02"], runs=[("engine", dict(quick=30000, thorough=1500000), ["--focus", "C02"])],
+    "C02": dict(proofs=["Proofs.C02", "Proofs.C02Full", "Proofs.Keystone", "Proofs.Lemmas.KeystoneC02", "Proofs.Certs"], runs=[("engine", dict(quick=30000, thorough=1500000), ["--focus", "C02"])],
                 rule=ENGINE_RULE, technique="Lean 4 proofs about the executor models + executor tie (models run on the dumped bytecode, incl. step counts) + implementation differential"),
     "C03": dict(proofs=["Proofs.C03", "Proofs.Keystone", "Proofs.EndToEnd"], runs=[("engine", dict(quick=30000, thorough=1500000), ["--focus", "C03"]),
                                  ("compiler", dict(quick=30000, thorough=900000))],
                 rule=ENGINE_RULE + "; compiler tie: per generated pattern the real IR before/after optimization, start predicate and program vs the Lean models, and the IR semantics vs the real first match",
                 technique="Lean 4 proof: every optimizer pass and the whole pipeline preserve the IR semantics (all inputs) + exact correspondence of the optimizer / IR-semantics models with the code + opt-vs-no_opt differential"),
-    "C05": dict(proofs=["Proofs.C05", "Proofs.C05Full"], runs=[("engine", dict(quick=30000, thorough=1500000), ["--focus", "C05"]),
+    "C05": dict(proofs=["Proofs.C05", "Proofs.C05Full", "Proofs.Certs"], runs=[("engine", dict(quick=30000, thorough=1500000), ["--focus", "C05"]),
                                  ("c05scope", dict(quick=0, thorough=0))],
                 rule=ENGINE_RULE, technique="Lean 4 proofs about the executor models + executor tie (models run on the dumped bytecode, incl. step counts) + implementation differential"),
     "C13": dict(proofs=["Proofs.C13"], runs=[("engine", dict(quick=30000, thorough=1500000), ["--focus", "C13"])],
